@@ -14,6 +14,8 @@ import ast
 
 import z3
 
+from . import seqs as Q
+
 from .engine import _join_tys, _m
 from .ty import *      # noqa
 from .values import *  # noqa
@@ -70,8 +72,8 @@ def binder(E, it, st):
         if it.kind == "zip":
             seqs = [seq_of(E, a, st) for a in it.args[0]]
             i = z3.Int(E.fresh_name("qi"))
-            g = z3.And([0 <= i] + [i < z3.Length(s.t) for s in seqs])
-            return ("sym", [i], g, STuple([SVal(s.t[i], s.ty.elem) for s in seqs]), i, None)
+            g = z3.And([0 <= i] + [i < Q.Length(s.t) for s in seqs])
+            return ("sym", [i], g, STuple([SVal(Q.At(s.t, i), s.ty.elem) for s in seqs]), i, None)
         if it.kind in ("chain", "seq"):
             it = seq_of(E, it, st)
         else:
@@ -83,7 +85,13 @@ def binder(E, it, st):
             ty = it.ty
         if isinstance(ty, TList):
             i = z3.Int(E.fresh_name("qi"))
-            return ("sym", [i], z3.And(0 <= i, i < z3.Length(it.t)), SVal(it.t[i], ty.elem), i, z3.Length(it.t))
+            src = it.t
+            if not Q.pattern_ok(src):
+                # name the source so that quantifier triggers over its elements are well-formed patterns
+                nm = E.fresh(ty, "src")
+                st.assume(nm.t == src)
+                src = nm.t
+            return ("sym", [i], z3.And(0 <= i, i < Q.Length(src)), SVal(Q.At(src, i), ty.elem), i, Q.Length(src))
         if isinstance(ty, TSet):
             x = z3.Const(E.fresh_name("qx"), E.U.sort(ty.elem))
             return ("sym", [x], z3.Select(it.t, x), SVal(x, ty.elem), None, None)
@@ -93,11 +101,45 @@ def binder(E, it, st):
         if ty is OPAQUE:
             s = seq_of(E, it, st)
             i = z3.Int(E.fresh_name("qi"))
-            return ("sym", [i], z3.And(0 <= i, i < z3.Length(s.t)), SVal(s.t[i], OPAQUE), i, z3.Length(s.t))
+            return ("sym", [i], z3.And(0 <= i, i < Q.Length(s.t)), SVal(Q.At(s.t, i), OPAQUE), i, Q.Length(s.t))
         if isinstance(ty, TTuple):
             dt = E.U.dt(ty)
             return ("unroll", [SVal(dt.accessor(0, k)(it.t), e) for k, e in enumerate(ty.elems)])
     raise OutsideSubset(f"cannot quantify over {it!r}")
+
+
+def _pat_or(a, b):
+    return b if a is None else a
+
+
+def _src_pattern(ev, i, k, lo_shift):
+    """trigger for the surjectivity fact: the k-th source element term"""
+    v = ev
+    if isinstance(v, STuple):
+        for x in v.items:
+            p = _src_pattern(x, i, k, lo_shift)
+            if p is not None:
+                return p
+        return None
+    if isinstance(v, SVal) and v.t is not None and not z3.is_int(v.t) and not z3.is_bool(v.t):
+        zero = z3.is_int_value(lo_shift) and lo_shift.as_long() == 0
+        t = z3.substitute(v.t, (i, k if zero else k + lo_shift))
+        if z3.is_app(t) and t.num_args() > 0 and Q.pattern_ok(t):
+            return t
+    return None
+
+
+def _narrow(E, e, elt, ifs):
+    """[x.f for ... if ... and x.f is not None]: the element is the unwrapped Optional"""
+    if not (isinstance(e, SVal) and isinstance(e.ty, TOpt)):
+        return e
+    want = ast.dump(elt)
+    for c in ifs:
+        for n in ast.walk(c):
+            if isinstance(n, ast.Compare) and len(n.ops) == 1 and isinstance(n.ops[0], ast.IsNot) \
+                    and isinstance(n.comparators[0], ast.Constant) and n.comparators[0].value is None and ast.dump(n.left) == want:
+                return SVal(E.U.dt(e.ty).get(e.t), e.ty.inner)
+    return e
 
 
 def quantifier(E, is_all, gen, st):
@@ -134,11 +176,13 @@ def _quant(E, is_all, gens, idx, elt, st):
     frame = {}
     bind_target(g.target, ev, frame)
     st.bound.append(frame)
+    st.qvars.extend(bs)
     try:
         conds = [E.truthy(E.ev1p(c, st), st) for c in g.ifs]
         body = _quant(E, is_all, gens, idx + 1, elt, st)
     finally:
         st.bound.pop()
+        del st.qvars[len(st.qvars) - len(bs):]
     if is_all:
         return z3.ForAll(bs, z3.Implies(z3.And([guard] + conds), body))
     return z3.Exists(bs, z3.And([guard] + conds + [body]))
@@ -215,10 +259,10 @@ def _list_comp(E, gens, elt, st):
         mats = [E.materialize(e, st) if not isinstance(e, SVal) else e for _, e in items]
         ety = _join_tys([m.ty for m in mats])
         sort = E.U.sort(TList(ety))
-        t = z3.Empty(sort)
+        t = Q.Empty(sort)
         for (c, _), m in zip(items, mats):
-            u = z3.Unit(E.coerce(m, ety, st).t)
-            t = z3.Concat(t, u if c is None else z3.If(c, u, z3.Empty(sort)))
+            u = Q.Unit(E.coerce(m, ety, st).t)
+            t = Q.Concat(t, u if c is None else z3.If(c, u, Q.Empty(sort)))
         return SVal(z3.simplify(t), TList(ety)), []
     if len(gens) == 1 and b[0] == "sym" and b[4] is not None and b[5] is not None:
         _, bs, guard, ev, idx, n = b
@@ -226,12 +270,15 @@ def _list_comp(E, gens, elt, st):
         frame = {}
         bind_target(g.target, ev, frame)
         st.bound.append(frame)
+        st.qvars.extend(bs)
         try:
             conds = [E.truthy(E.ev1p(c, st), st) for c in g.ifs]
             e = E.ev1p(elt, st)
         finally:
             st.bound.pop()
+            del st.qvars[len(st.qvars) - len(bs):]
         e = E.materialize(e, st) if not isinstance(e, SVal) else e
+        e = _narrow(E, e, elt, g.ifs)
         ety = e.ty
         rty = TList(ety)
         if not conds:
@@ -240,27 +287,38 @@ def _list_comp(E, gens, elt, st):
             # element at position j of R is e evaluated at the j-th element (index term idx is i - lo)
             e_at = z3.substitute(e.t, (i, i))
             lo_shift = z3.simplify(i - idx)   # i = idx + lo
-            ej = z3.substitute(e.t, (i, j + lo_shift))
-            facts = [z3.Length(R.t) == z3.If(n < 0, 0, n),
-                     z3.ForAll([j], z3.Implies(z3.And(0 <= j, j < n), R.t[j] == ej), patterns=[R.t[j]])]
+            ej = z3.substitute(e.t, (i, j if (z3.is_int_value(lo_shift) and lo_shift.as_long() == 0) else j + lo_shift))
+            facts = [Q.Length(R.t) == z3.If(n < 0, 0, n),
+                     z3.ForAll([j], z3.Implies(z3.And(0 <= j, j < n), Q.At(R.t, j) == ej), patterns=[Q.At(R.t, j)])]
             E.assumptions.add("schematic rule MAP: [e(x) for x in xs] is the list R with len(R)=len(xs) and R[j]=e(xs[j])")
             return R, facts
         c = z3.And(conds)
-        sort = E.U.sort(rty)
-        f = z3.RecFunction(E.fresh_name("filtermap"), z3.IntSort(), sort)
-        j = z3.Int(E.fresh_name("fj"))
         lo_shift = z3.simplify(i - idx)
-        cj = z3.substitute(c, (i, j - 1 + lo_shift))
-        ej = z3.substitute(e.t, (i, j - 1 + lo_shift))
-        z3.RecAddDefinition(f, [j], z3.If(j <= 0, z3.Empty(sort), z3.Concat(f(j - 1), z3.If(cj, z3.Unit(ej), z3.Empty(sort)))))
-        R = SVal(f(z3.If(n < 0, 0, n)), rty)
-        v = z3.Const(E.fresh_name("fv"), E.U.sort(ety))
-        k = z3.Int(E.fresh_name("fk"))
-        ck = z3.substitute(c, (i, k + lo_shift))
-        ek = z3.substitute(e.t, (i, k + lo_shift))
-        facts = [z3.Length(R.t) <= z3.If(n < 0, 0, n), z3.Length(R.t) >= 0,
-                 z3.ForAll([v], z3.Contains(R.t, z3.Unit(v)) == z3.Exists([k], z3.And(0 <= k, k < n, ck, ek == v)))]
-        E.assumptions.add("schematic rule FILTERMAP: membership lemma of a filter-map comprehension (by list induction)")
+        R = E.fresh(rty, "filtermap")
+        fidx = z3.Function(E.fresh_name("fm_idx"), z3.IntSort(), z3.IntSort())
+        finv = z3.Function(E.fresh_name("fm_inv"), z3.IntSort(), z3.IntSort())
+        j, j2, k = z3.Int(E.fresh_name("fj")), z3.Int(E.fresh_name("fj2")), z3.Int(E.fresh_name("fk"))
+        nn = z3.If(n < 0, 0, n)
+        lenR = Q.Length(R.t)
+        _sh = (lambda t: t) if (z3.is_int_value(lo_shift) and lo_shift.as_long() == 0) else (lambda t: t + lo_shift)
+        c_at = lambda t: z3.substitute(c, (i, _sh(t)))
+        e_at = lambda t: z3.substitute(e.t, (i, _sh(t)))
+        facts = [lenR <= nn,
+                 # every element of R comes from a selected source position, in order
+                 z3.ForAll([j], z3.Implies(z3.And(0 <= j, j < lenR),
+                                           z3.And(0 <= fidx(j), fidx(j) < nn, c_at(fidx(j)), Q.At(R.t, j) == e_at(fidx(j)))),
+                           patterns=[Q.At(R.t, j)]),
+                 z3.ForAll([j, j2], z3.Implies(z3.And(0 <= j, j < j2, j2 < lenR), fidx(j) < fidx(j2)), patterns=[z3.MultiPattern(fidx(j), fidx(j2))]),
+                 # every selected source position appears in R
+                 z3.ForAll([k], z3.Implies(z3.And(0 <= k, k < nn, c_at(k)),
+                                           z3.And(0 <= finv(k), finv(k) < lenR, fidx(finv(k)) == k, Q.At(R.t, finv(k)) == e_at(k))),
+                           patterns=[_pat_or(_src_pattern(ev, i, k, lo_shift), finv(k))])]
+        # the last family needs an instance per candidate k: give z3 the trigger through the guard of the source index
+        facts.append(z3.ForAll([k], finv(k) == finv(k), patterns=[z3.substitute(e.t, (i, k + lo_shift))]) if False else z3.BoolVal(True))
+        E.assumptions.add("schematic rule FILTERMAP: [e(x) for x in xs if c(x)] is characterised by a strictly increasing index "
+                          "function onto the selected positions (sound and complete; justified by list induction)")
+        E.fm_inv = getattr(E, "fm_inv", [])
+        E.fm_inv.append((finv, k, c_at, nn))
         return R, facts
     # general case (several generators / unordered sources): membership characterisation only
     frames = []
@@ -291,7 +349,7 @@ def _list_comp(E, gens, elt, st):
             st.bound.pop()
     R = E.fresh(TList(e.ty), "flatmap")
     v = z3.Const(E.fresh_name("fv"), E.U.sort(e.ty))
-    facts = [z3.ForAll([v], z3.Contains(R.t, z3.Unit(v)) == z3.Exists(bs_all, z3.And(guards + [e.t == v])))]
+    facts = [z3.ForAll([v], E.seq_member(R.t, v) == z3.Exists(bs_all, z3.And(guards + [e.t == v])))]
     E.assumptions.add("schematic rule FLATMAP: a multi-generator comprehension is characterised by its members only (order/multiplicity unconstrained)")
     return R, facts
 
